@@ -120,3 +120,36 @@ Section Bind.
     - cbn [resolve]. rewrite <- firstn_as_map by exact H. apply map_ext. intros i. f_equal. lia.
   Qed.
 End Bind.
+
+(* ---------------------------------------------------------------------------------------------- *)
+(* C20: value categories along the forwarding chains.
+   A caller's l-value reaches a library function through an l-value reference or a forwarding reference.  It is
+   altered only if it is turned into an r-value (std::move) AND the r-value then initialises an object (by-value or
+   r-value-reference sink).  std::forward preserves the category; a const-reference sink copies. *)
+Definition pkind_caller_lvalue (k : pkind) : bool :=
+  match k with PForwarding | PLvalueRef => true | PConstRef | PRvalueRef => false end.
+
+Definition site_harmless (s : fwd_site) : bool :=
+  if negb (pkind_caller_lvalue (fs_pkind s)) then true       (* const& cannot be moved from; && was given away by the caller *)
+  else match fs_how s with
+       | HForward => true
+       | HMove => match fs_sink s with SConstRef => true | _ => false end
+       end.
+
+(* the three possible fates of an argument, and when the caller's object is altered *)
+Inductive category := LValue | RValue.
+Definition after (h : fhow) (c : category) : category := match h with HForward => c | HMove => RValue end.
+Definition steals (c : category) (sink : fsink) : bool :=
+  match c, sink with
+  | RValue, (SByValue | SRvalueRef | SUnknown | SNone) => true
+  | _, _ => false
+  end.
+
+Theorem site_harmless_sound s :
+  site_harmless s = true -> pkind_caller_lvalue (fs_pkind s) = true ->
+  steals (after (fs_how s) LValue) (fs_sink s) = false.
+Proof.
+  unfold site_harmless. intros H Hk. rewrite Hk in H. cbn [negb] in H.
+  destruct (fs_how s); cbn [after]; [|reflexivity].
+  destruct (fs_sink s); cbn [steals]; congruence.
+Qed.
